@@ -13,6 +13,7 @@ func init() {
 	register(&Prop{ID: "C08", Run: runC08,
 		Technique: "static analysis: must-pass-through of the status writes in Agent.Run and of the done notification in the worker, decision tables of the latest-status query and of the status getter, field coverage of the recorder / restorer (go/ssa)",
 		Decided: []string{
+			"run state that other goroutines read under a mutex (node state, cmd, cancelFunc, Scheduler.lastError / canceled, graph start/finish times - the set is inferred from the code's own locked reads and writes) is written with that mutex held everywhere outside the construction phase, and node state is read from outside the node's methods only under it (C08.state-lock)",
 			"a status is written after a successful Open, after Schedule on every path to the return, and on every node notification (C08.write-points); the worker notifies on every exit after launch (C08.done-on-every-exit)",
 			"the latest-status query returns the live answer when the socket answered and a persisted status only after correcting running→failed; that correction rewrites nothing else (C08.latest, C08.correct-table)",
 			"the recorder reads and the restorer writes every step-state field the status names (C08.persisted-fields)",
@@ -36,6 +37,7 @@ func runC08(e *Env) {
 	c08LiveIsRunning(e)
 	c16ProbeTable(e)
 	c09StartGuard(e)
+	cLockDiscipline(e)
 }
 
 func isHistWrite(c *ssa.CallCommon) bool {
